@@ -62,6 +62,8 @@ package csv
 //@   ensures [cells-kept] c.f.currentRow.cells == old(c.f.currentRow.cells) && c.f.currentRow == old(c.f.currentRow)
 //@   ensures [cell-content-kept] forall k int :: 0 <= k && k < len(c.f.currentRow.cells) ==> c.f.currentRow.cells[k] == old(c.f.currentRow.cells[k])
 //@   ensures [shape-kept] rowShape(c.f)
+//@   ensures [keys-storage] cap(c.f.currentRow.missingKeys) == 0 || (obj(c.f.currentRow.missingKeys) == old(obj(c.f.currentRow.missingKeys)) && old(cap(c.f.currentRow.missingKeys)) > 0) || fresh(c.f.currentRow.missingKeys)
+//@   assigns c.f.currentRow.missingKeys, elems(c.f.currentRow.missingKeys)
 
 //@ func (OptionalColumn).Read
 //@   props C01 C05 C10
@@ -83,10 +85,13 @@ package csv
 //@ func (*File).NextRow
 //@   props C01 C05 C09
 //@   requires f != nil && f.csvReader != nil && len(f.headerContent) == nfields(f.csvReader)
-//@   ensures [row] result ==> rowShape(f) && len(f.currentRow.missingKeys) == 0 && f.rowNumber == old(f.rowNumber) + 1
+//@   ensures [row] result ==> rowShape(f) && len(f.currentRow.missingKeys) == 0 && cap(f.currentRow.missingKeys) == 0 && f.rowNumber == old(f.rowNumber) + 1
+//@   ensures [cells-storage] result ==> obj(f.currentRow.cells) == obj(f.csvReader) || fresh(f.currentRow.cells)
+//@   ensures [same-reader] f.csvReader == old(f.csvReader) && f.headerMap == old(f.headerMap) && f.headerContent == old(f.headerContent)
 //@   ensures [end] !result ==> f.currentRow == nil && f.rowNumber == old(f.rowNumber)
 //@   ensures [progress] result ==> old(remaining(f.csvReader)) > 0 && remaining(f.csvReader) < old(remaining(f.csvReader))
 //@   ensures [finite] remaining(f.csvReader) <= old(remaining(f.csvReader))
+//@   assigns f.currentRow, f.rowNumber, f.ioErr, *f.currentRow, objcells(f.csvReader, "string")
 
 // fileOK: the representation invariant of *File that New establishes and every method preserves.
 //@ pure func fileOK(f *File) bool = headerOK(f) && f.csvReader != nil && len(f.headerContent) == nfields(f.csvReader)
